@@ -41,6 +41,8 @@ func checkC02(c *Ctx) {
 	ruleThresholdAgreement(c, "C02.l")
 	c.rule("C02.m", "mailbox-name transformer chunking: ErrShortSrc on a split unit, space check before every write, nSrc after the check", 6)
 	ruleUTF7Chunking(c, "C02.m", "C02.m", "C02.m")
+	c.rule("C02.n", "a local filled by a decoder call is read before another decoder call fills it again", 24)
+	ruleDecodedValueNotOverwritten(c, "C02.n", "imapserver")
 	ruleNoSwallowedError(c, "C02.d", "imapserver", "internal")
 }
 
